@@ -5,18 +5,18 @@ FLAGS = ['-DNDEBUG']
 ASSUMPTIONS = [
     'exact real arithmetic for the equalities; "bit-for-bit unchanged" is decided on the operation tree of each coarse-node output: either it is the very input term (no floating-point operation was applied) or an IEEE-754 (QF_FP, round-to-nearest-even) query over the tree; a tree with more than 24 operations is reported as not bit-exact by construction',
     'grid spacings and per-node coefficients: small exact rationals satisfying arr, att > 0, 4 arr att >= art^2, detDF != 0, beta >= 0',
-    'colour rule from the property text; coarse node = even radial and even angular index',
+    'colour rule from the property text; coarse node = even radial and even angular index; finest-level grids only: nr odd, ntheta even (a coarser grid exists)',
     '-DNDEBUG build',
 ]
 OUTSIDE = ['shapes other than listed', 'symbolic coefficients through the line solves']
-BOUNDS = {'quick': '(6,4,3) (7,8,3) (9,8,auto) x both modes x both strategies x T in {1,2}',
-          'thorough': '+ (8,8,4) (9,8,5) (9,16,auto) (7,12,3) (11,8,4), 2 coefficient variants'}
+BOUNDS = {'quick': '(7,4,3) (7,8,3) (9,8,auto) x both modes x both strategies x T in {1,2}',
+          'thorough': '+ (7,8,4) (9,8,4) (9,8,5) (9,16,auto) (7,12,3) (11,8,4), 2 coefficient variants'}
 
 
 def jobs(tier, seed):
     J = []
     q = tier == 'quick'
-    shapes = [(6, 4, 3), (7, 8, 3), (9, 8, -1)] if q else [(6, 4, 3), (7, 8, 3), (8, 8, 4), (9, 8, -1), (9, 8, 5), (7, 12, 3), (9, 16, -1), (11, 8, 4)]
+    shapes = [(7, 4, 3), (7, 8, 3), (9, 8, -1)] if q else [(7, 4, 3), (7, 8, 3), (7, 8, 4), (9, 8, -1), (9, 8, 4), (9, 8, 5), (7, 12, 3), (9, 16, -1), (11, 8, 4)]
     for (nr, nt, nC) in shapes:
         for dirbc in (0, 1):
             for strat in (0, 1):
